@@ -1,6 +1,7 @@
 """C02 — analytic first derivatives (assembly layer)."""
 import os, sys
 from vcommon import *
+import tab_k
 import deriv_k
 
 PID = "C02"
@@ -16,6 +17,7 @@ def run(tier, replay=None, pid=PID, order=ORDER):
                        "entry of the derivative routines from the library's own shifted shell-pair blocks and must agree to "
                        "1e-12 x largest entry" % (pid, order))
     ok = coq_properties(res, pid)
+    tab_ok, tab_fail = tab_k.obligations(res, pid)
     if not ok and not res.violations:
         proof_broken(res, pid, "Properties_%s.v no longer checks" % pid)
     bad = deriv_k.run_k(res, order, tier)
@@ -31,4 +33,5 @@ def run(tier, replay=None, pid=PID, order=ORDER):
         "shifted shell-pair blocks are taken from the library itself (C01 contract); numerical truth of those blocks is C01/C12",
         "extraction by ExtrOcamlBasic; OCaml double arithmetic in the driver",
         "differentiation under the integral sign and the Gaussian derivative rule D1 link the formal rule to the geometric derivative (DESIGN 5/C02)"]
+    tab_k.report(res, pid, tab_ok, tab_fail)
     return res.finish()
